@@ -78,7 +78,7 @@ add("C09", "exploration",
     "deterministic simulation: codec hops on simulated transport/disk + transport corruption faults (incl. consensus messages through the real handler); panic-free and hash-stability oracles; concurrent callers under a seeded scheduler + race detector over simulator-chosen schedules")
 
 add("C19", "fault_enumeration",
-    "seeded histories of AddGroup (valid; invalid in several ways; valid successors with arbitrary unauthenticated wire height fields; a valid successor the store cannot encode; two competing callers under the seeded scheduler), remove-last-group, remove-then-different-group and restart on a booted real node; the invariant (linked list from genesis, count, height index below and above count, by-id retrieval, removed groups gone, sync successors) is checked against a slice model on the live node after every operation and - exhaustively per history - on a fresh incarnation booted from the disk image taken after every operation. Crash points inside an operation are booted too but only reported as probes (outside the property's quantifier).",
+    "seeded histories of AddGroup (valid; invalid in several ways; valid successors with arbitrary unauthenticated wire height fields; a valid successor the store cannot encode; two competing callers under the seeded scheduler; the chain's fork-switch removal alone and racing with an AddGroup), remove-last-group, remove-then-different-group and restart on a booted real node; the invariant (linked list from genesis, count, height index below and above count, by-id retrieval, removed groups gone, sync successors) is checked against a slice model on the live node after every operation and - exhaustively per history - on a fresh incarnation booted from the disk image taken after every operation. Crash points inside an operation are booted too but only reported as probes (outside the property's quantifier).",
     "trusted: simulated storage under real goleveldb (completed writes survive), stub ConsensusHelper.CheckGroup, in-process restart (singletons reset through in-package drivers)",
     "deterministic simulation: op histories + restart-after-every-op enumeration from disk images vs slice model")
 
